@@ -2876,13 +2876,13 @@ impl RawTableInner {
         self.prepare_rehash_in_place();
 
         let mut guard = guard(self, move |self_| {
-            if let Some(drop) = drop {
-                for i in 0..self_.buckets() {
-                    if *self_.ctrl(i) == Tag::DELETED {
-                        self_.set_ctrl(i, Tag::EMPTY);
+            for i in 0..self_.buckets() {
+                if *self_.ctrl(i) == Tag::DELETED {
+                    self_.set_ctrl(i, Tag::EMPTY);
+                    if let Some(drop) = drop {
                         drop(self_.bucket_ptr(i, size_of));
-                        self_.items -= 1;
                     }
+                    self_.items -= 1;
                 }
             }
             self_.growth_left = bucket_mask_to_capacity(self_.bucket_mask) - self_.items;
